@@ -47,7 +47,7 @@ for p in props:
             "level_claimed": {"category": "other",
                               "text": "Static analysis, exhaustive over the enumerated rule instances of the current source. Decides these structural clauses (necessary conditions), not the behaviour: " + text,
                               "design_ref": "DESIGN.md §4 " + pid},
-            "level_note": "trusted base: rustc nightly's type checking / MIR construction / trait resolution, the fact extractor in driver/, the one-symbol allowlists in rules/; analysed configuration = the workspace feature set of /repo/Cargo.toml (thorough: also default features); runtime values and schedules are not analysed; Scheme library code only where a rule names it (parameters.scm for C08.w)",
+            "level_note": "trusted base: rustc nightly's type checking / MIR construction / trait resolution, the fact extractor in driver/, the one-symbol allowlists in rules/; analysed configuration = the workspace feature set of /repo/Cargo.toml (thorough: also default features); runtime values and schedules are not analysed; Scheme library code only where a rule names it (parameters.scm for C08.w, reader.scm for C12.r)",
             "technique": "static analysis: " + tech,
         })
     elif pid in NA:
